@@ -247,6 +247,19 @@ fn judge_f64(st: &mut Stats, rng: &mut Rng) {
             st.eval();
             match catch(|| m.det()) { Outcome::Ok(x) => if x != det.to_f64() { st.violation("C05:det:f64:wrong-value", format!("det={} exact {:?}; {}", x, det, desc())); }, o => st.violation("C05:det:f64:panic", format!("{}; {}", o.describe(), desc())) }
         }
+        // det under a diagonal similarity scaling D T D^-1 (sub_i * 2^-e_i, sup_i * 2^e_i: every product sub_i*sup_i, hence
+        // the determinant, is unchanged bit for bit) with the first row scaled by 2^300 (det scales by exactly 2^300)
+        if n >= 2 {
+            let es: Vec<i32> = (0..n - 1).map(|_| rng.int(-700, 700) as i32).collect();
+            let t3 = Tri { sub: (0..n - 1).map(|i| tf.sub[i] * 2f64.powi(-es[i])).collect::<Vec<f64>>(), main: (0..n).map(|i| if i == 0 { tf.main[0] * 2f64.powi(300) } else { tf.main[i] }).collect(), sup: (0..n - 1).map(|i| tf.sup[i] * 2f64.powi(es[i]) * if i == 0 { 2f64.powi(300) } else { 1.0 }).collect() };
+            if t3.sup.iter().chain(&t3.sub).all(|x| x.is_finite()) {
+                st.eval();
+                if let (Outcome::Ok(d0), o) = (catch(|| m.det()), catch(|| t3.build(0).det())) {
+                    let want = d0 * 2f64.powi(300);
+                    match o { Outcome::Ok(d3) => if d3.to_bits() != want.to_bits() && d3 != want { st.violation("C05:det:f64:similarity-scaling", format!("det of D T D^-1 (first row * 2^300) = {:e}, expected {:e}; sub={:?} main={:?} sup={:?}", d3, want, t3.sub, t3.main, t3.sup)); }, oo => st.violation("C05:det:f64:panic", oo.describe()) }
+                }
+            }
+        }
         // f64 * Tridiagonal
         st.eval();
         match catch(|| 2.0 * m.clone()) { Outcome::Ok(x) => if !tf.map(|a| 2.0 * a).same(&x) { st.violation("C05:f64*T:wrong-result", desc()); }, o => st.violation("C05:f64*T:panic", format!("{}; {}", o.describe(), desc())) }
